@@ -29,19 +29,29 @@ func (kgraph *KVGraph) DeleteGraph(graph string) error {
 	kgraph.ts.Touch(graph)
 
 	eprefix := EdgeListPrefix(graph)
-	kgraph.kv.DeletePrefix(eprefix)
+	if err := kgraph.kv.DeletePrefix(eprefix); err != nil {
+		return err
+	}
 
 	vprefix := VertexListPrefix(graph)
-	kgraph.kv.DeletePrefix(vprefix)
+	if err := kgraph.kv.DeletePrefix(vprefix); err != nil {
+		return err
+	}
 
 	sprefix := SrcEdgeListPrefix(graph)
-	kgraph.kv.DeletePrefix(sprefix)
+	if err := kgraph.kv.DeletePrefix(sprefix); err != nil {
+		return err
+	}
 
 	dprefix := DstEdgeListPrefix(graph)
-	kgraph.kv.DeletePrefix(dprefix)
+	if err := kgraph.kv.DeletePrefix(dprefix); err != nil {
+		return err
+	}
 
 	graphKey := GraphKey(graph)
-	kgraph.kv.Delete(graphKey)
+	if err := kgraph.kv.Delete(graphKey); err != nil {
+		return err
+	}
 
 	kgraph.deleteGraphIndex(graph)
 
